@@ -310,6 +310,31 @@ def run(chk):
                 ok = bool(cs) and any(not cond_edges_dominating(f, c) for c in cs)
                 chk.ob("C06-D5.rebuild", f.key, "%s rebuilds derived state unconditionally" % cn, ok, f.where, "%d call(s)" % len(cs))
 
+    # ------------------------------------------------------------------ D7 lost updates in restore paths
+    chk.rule("C06-D7.lostwrite", "no range-for loop iterates by value over a container of class objects and then writes to the loop variable (the update would be lost on a copy); "
+                                 "this is how restored construction data rebuild their per-tensor state")
+    from tsg.flow import element_writes
+    nloops = 0
+    for fns in db.load_all().values():
+        for fn in fns:
+            if fn.file.startswith("@verif") or "/test" in fn.file or fn.file.startswith("Addons/test"):
+                continue
+            for st in fn.walk():
+                if st.get("k") == "CXXForRangeStmt" and st.get("lv"):
+                    nloops += 1
+                    lv = st["lv"]
+                    t = lv.get("t", "")
+                    if "&" in t or "*" in t or "iterator" in t:
+                        continue
+                    ws = [x for x in walk(st.get("body")) for d, kd, _ in element_writes(x) if d == lv["did"] and kd in ("partial", "update")]
+                    if ws:
+                        chk.saw(fn)
+                    for wn in ws[:1]:
+                        chk.ob("C06-D7.lostwrite", fn.key, "for(%s %s : %s)" % (t, lv.get("name"), txt(st.get("range"))[:40]), False, fn.loc(st),
+                               "`%s` modifies a copy of the element; the container keeps its old state" % txt(wn)[:60], "bind the loop variable by reference")
+    chk.floor("C06-D7.lostwrite", nloops, 200, "range-for loops examined")
+    chk.ob("C06-D7.lostwrite", "(library)", "%d range-for loops: none writes to a by-value loop variable" % nloops, True, "")
+
     # ------------------------------------------------------------------ D6 precision
     nprec = 0
     for wname, _ in PAIRS:
